@@ -30,7 +30,7 @@ def load_known():
                 line = line.strip()
                 if not line.startswith("finding:"):
                     continue
-                head, _, what = line[len("finding:"):].partition("::")
+                head, _, what = line[len("finding:"):].partition(" :: ")
                 d = {"what": what.strip()}
                 for m in re.finditer(r'(\w+)=("([^"]*)"|\S+)', head):
                     d[m.group(1)] = m.group(3) if m.group(3) is not None else m.group(2)
@@ -117,6 +117,7 @@ def main():
     ap.add_argument("--no-evidence", action="store_true")
     ap.add_argument("--replay")
     ap.add_argument("--build-only", action="store_true")
+    ap.add_argument("--loops", action="store_true", help="list the loops of the selected harnesses and stop")
     a = ap.parse_args()
     if a.replay:
         # a replay file names its harness: re-run exactly that harness against the current tree
@@ -166,7 +167,7 @@ def main():
         core.log(f"build {build_s:.0f}s, tree {th}")
 
         def work(h):
-            r = core.run_harness(h, meta[h.path])
+            r = core.run_harness(h, meta[h.path], loops_only=a.loops)
             judge(h, r, known)
             core.log(f"  {h.name}: {r['verdict']} checks={r['checks']} prep={r['prep_s']}s cbmc={r['cbmc_s']}s "
                      f"solver={r['solver_s']}s {'; '.join(r['reasons'])[:300]}")
